@@ -378,7 +378,7 @@ def prove(run, key="C09", dts=(0.25, complex(0, -0.25)), density_operators=True)
             for method, two_site in (("tdvp_ps", False), ("tdvp_ps2", True)):
                 if two_site and n < 2:
                     continue
-                cases.append((name, n, sname, method, two_site, tuple(dts), density_operators, 60 if run.tier == "quick" else 600))
+                cases.append((name, n, sname, method, two_site, tuple(dts), density_operators, 60 if run.tier == "quick" else 240))
     leds = pool_cases(run, worker, cases)
     ncase = sum(l.extra.get("ncase", 0) for l in leds)
     run.extra.setdefault("symx", {})[key + "_tdvp"] = {"scheme_cases": ncase, "local_problems": sum(l.extra.get("ncalls", 0) for l in leds),
